@@ -10,7 +10,8 @@ func Compact(ctx context.Context, l Log, age time.Duration, boff DeleteMultiBack
 	if _, _, err := CompactUpdatesMultiOffsets(ctx, l, updatesBefore, boff); err != nil {
 		return err
 	}
-	deletesBefore := time.Now().Add(-age * 2)
+	// not -age * 2, which overflows for ages above 146 years and puts the cut-off into the future
+	deletesBefore := time.Now().Add(-age).Add(-age)
 	if _, _, err := CompactDeletesMultiOffsets(ctx, l, deletesBefore, boff); err != nil {
 		return err
 	}
